@@ -7,7 +7,7 @@ Driver requests for L3–L5 (container fragment):
     (roundtrip (F (item…) <endGap>))  →  (ok <text>) | (err <class>) | (uncovered <why>)
     (pieces    (F (item…) <endGap>))  →  (ok (t|c|w <text>)…) | (err <class>) | (uncovered <why>)
     (flatten   (F (item…) <endGap>))  →  (ok <text>)
-    (facts     (F …))                 →  (ok <orderOk> <beforeFlatB> <safe> <spacing nf> <tokens kept> <basic>)
+    (facts     (F …))                 →  (ok <orderOk> <beforeFlatB> <safe> <spacing nf> <tokens kept>)
     (norm      (F …))                 →  (ok <text> <cst>) for comment-free files: `File.norm`
 
     cst   ::= (l <kind> <text>) | (L (item…) <closeGap>) | (S <t|f> <recGap> (item…) <closeGap>)
@@ -116,7 +116,7 @@ def handle (req : SExp) : Option SExp :=
       else match f.parse with
         | .ok s => some (.list [.atom "ok", sBool f.orderOk, sBool s.beforeFlatB,
             sBool (safeGo false s.rebuildP), sBool (summ s.rebuildP).fileOk,
-            sBool (decide (toks s.rebuildP = f.codeTokens)), sBool f.basic])
+            sBool (decide (toks s.rebuildP = f.codeTokens))])
         | .error e => some (sErr e)
   | .list [.atom "norm", f] =>
     -- comment-free files: the tree of the output as the fixed-point theorem names it
@@ -124,7 +124,6 @@ def handle (req : SExp) : Option SExp :=
     | none => some (.list [.atom "bad-arg"])
     | some f =>
       if !f.covered then some (.list [.atom "uncovered", .atom "wf"])
-      else if !f.basic then some (.list [.atom "uncovered", .atom "not-basic"])
       else if !f.items.cf then some (.list [.atom "uncovered", .atom "comments"])
       else some (.list [.atom "ok", sText f.norm.flatten, encFile f.norm])
   | .list [.atom "flatten", f] =>
